@@ -11,7 +11,7 @@ func baseWeights() map[string]int {
 		"bridge": 5, "bridge_receive": 6, "bridge_receive_bound": 4, "mint_replay": 3, "allowlist": 2, "class_creator": 3, "class_fee": 2, "bridge_chain": 3,
 		"burn_regen": 2, "unimplemented": 1, "bank_send": 8,
 		"basket_create": 4, "put": 14, "take": 12, "basket_fee": 2, "update_curator": 2, "update_date_criteria": 3,
-		"sell": 14, "update_sell": 10, "cancel_sell": 5, "buy": 16, "allowed_denom": 3, "fee_params": 3, "fee_pool_send": 3,
+		"sell": 14, "update_sell": 10, "cancel_sell": 5, "buy": 16, "basket_token_market": 4, "allowed_denom": 3, "fee_params": 3, "fee_pool_send": 3,
 		"anchor": 3, "attest": 3, "define_resolver": 2, "register_resolver": 3,
 	}
 }
@@ -30,6 +30,7 @@ func ProfileFor(prop string) Profile {
 	case "C05", "C11":
 		p := tilt("basket-heavy", map[string]int{"put": 4, "take": 4, "basket_create": 2, "update_date_criteria": 4, "bank_send": 3, "create_batch": 2, "sell": 0, "update_sell": 0, "cancel_sell": 0, "buy": 0, "anchor": 0, "attest": 0, "define_resolver": 0, "register_resolver": 0})
 		p.Weights["sell"], p.Weights["buy"], p.Weights["update_sell"], p.Weights["cancel_sell"] = 4, 4, 2, 1
+		p.Weights["basket_token_market"], p.Weights["fee_params"] = 14, 6
 		p.Boundary = 0.5
 		return p
 	case "C06", "C07", "C12":
